@@ -352,70 +352,7 @@ func rulesC08(c *Ctx) {
 		c.Pin("Write formatEventID", n, 1)
 	})
 
-	c.Rule("R-C08-9", "resumable streams end with 2026-07-28 (SEP-2575): every write to the event store by the streamable server connection — the priming event of a POST, the append of a written message — sits behind `version < 2026-07-28`; a priming event written for a newer request precedes the HTTP status that the new protocol maps errors to, and the client takes the stream for resumable", func() {
-		v728 := c.Obj(pM, "protocolVersion20260728")
-		n := 0
-		for _, f := range c.funcsWithLits(pM) {
-			r := f.Root()
-			if r.Recv() == nil || namedOf(r.Recv().Type()) == nil || namedOf(r.Recv().Type()).Obj().Name() != "streamableServerConn" {
-				continue
-			}
-			g := f.Graph()
-			for _, call := range f.AllCalls(f.Body, false) {
-				sel, ok := ast.Unparen(call.Fun).(*ast.SelectorExpr)
-				if !ok || !f.IsField(sel.X, esF) {
-					continue
-				}
-				// (the writing uses: replay by After finds nothing where nothing was stored)
-				switch sel.Sel.Name {
-				case "Open", "Append":
-				default:
-					continue
-				}
-				n++
-				c.touch(f)
-				guards := g.GuardsAt(g.VertexOf(call))
-				// named conditions stand for their definitions
-				for i := 0; i < len(guards); i++ {
-					if _, isID := ast.Unparen(guards[i].E).(*ast.Ident); isID {
-						if def := f.valueOf(guards[i].E); def != guards[i].E {
-							splitAtoms(def, guards[i].Val, &guards)
-						}
-					}
-				}
-				bounded := hasAtom(guards, func(a Atom) bool {
-					_, y, op, ok := binaryCmp(a.E)
-					if !ok || f.ObjOf(y) != v728 {
-						return false
-					}
-					return (op == token.LSS && a.Val) || (op == token.GEQ && !a.Val)
-				})
-				// the GET path is entered only for older versions by its caller; accept a dominating refusal of >= 2026-07-28 in
-				// the enclosing declared function as well (ReachUnder: with version >= 2026-07-28 the use is unreachable)
-				if !bounded {
-					reach := g.ReachUnder(func(e ast.Expr) tri {
-						_, y, op, ok := binaryCmp(e)
-						if !ok || f.ObjOf(y) != v728 {
-							return triUnknown
-						}
-						switch op {
-						case token.LSS:
-							return triFalse
-						case token.GEQ:
-							return triTrue
-						}
-						return triUnknown
-					}, nil)
-					bounded = !reach[g.VertexOf(call)]
-				}
-				if !bounded {
-					bounded = c.entryRefusesModern(r)
-				}
-				c.Check(bounded, "event-store-only-below-2026-07-28:"+f.Name()+":"+sel.Sel.Name, f, call, "eventStore.%s is reached only for protocol versions below 2026-07-28 (guards: %s)", sel.Sel.Name, atomsString(guards))
-			}
-		}
-		c.Pin("writes to the event store by streamableServerConn", n, 2)
-	})
+	c.Rule("R-C08-9", eventStoreBoundDoc, func() { ruleEventStoreBound(c) })
 
 	c.Rule("R-C08-2", "stream.lastIdx moves in lock-step with the store: -1 at creation, +1 with every SSE event written, +1 with the stored priming event, and re-based to the replayed position on resume; no other writer", func() {
 		roles := map[string]int{}
@@ -739,4 +676,75 @@ func reachableFromAnySend(f *Func, g *Graph, fld *types.Var, v int) bool {
 		}
 	}
 	return false
+}
+
+const eventStoreBoundDoc = "resumable streams end with 2026-07-28 (SEP-2575): every write to the event store by the streamable server connection — the priming event of a POST, the append of a written message — sits behind `version < 2026-07-28`; a priming event written for a newer request precedes the HTTP status that the new protocol maps errors to, and the client takes the stream for resumable"
+
+// ruleEventStoreBound is shared by R-C08-9 and R-C07-9 (a shared body rather than an import: C08 already imports from C09,
+// which imports from C07).
+func ruleEventStoreBound(c *Ctx) {
+	esF := c.Field(pM, "streamableServerConn", "eventStore")
+	v728 := c.Obj(pM, "protocolVersion20260728")
+	n := 0
+	for _, f := range c.funcsWithLits(pM) {
+		r := f.Root()
+		if r.Recv() == nil || namedOf(r.Recv().Type()) == nil || namedOf(r.Recv().Type()).Obj().Name() != "streamableServerConn" {
+			continue
+		}
+		g := f.Graph()
+		for _, call := range f.AllCalls(f.Body, false) {
+			sel, ok := ast.Unparen(call.Fun).(*ast.SelectorExpr)
+			if !ok || !f.IsField(sel.X, esF) {
+				continue
+			}
+			// (the writing uses: replay by After finds nothing where nothing was stored)
+			switch sel.Sel.Name {
+			case "Open", "Append":
+			default:
+				continue
+			}
+			n++
+			c.touch(f)
+			guards := g.GuardsAt(g.VertexOf(call))
+			// named conditions stand for their definitions
+			for i := 0; i < len(guards); i++ {
+				if _, isID := ast.Unparen(guards[i].E).(*ast.Ident); isID {
+					if def := f.valueOf(guards[i].E); def != guards[i].E {
+						splitAtoms(def, guards[i].Val, &guards)
+					}
+				}
+			}
+			bounded := hasAtom(guards, func(a Atom) bool {
+				_, y, op, ok := binaryCmp(a.E)
+				if !ok || f.ObjOf(y) != v728 {
+					return false
+				}
+				return (op == token.LSS && a.Val) || (op == token.GEQ && !a.Val)
+			})
+			// the GET path is entered only for older versions by its caller; accept a dominating refusal of >= 2026-07-28 in
+			// the enclosing declared function as well (ReachUnder: with version >= 2026-07-28 the use is unreachable)
+			if !bounded {
+				reach := g.ReachUnder(func(e ast.Expr) tri {
+					_, y, op, ok := binaryCmp(e)
+					if !ok || f.ObjOf(y) != v728 {
+						return triUnknown
+					}
+					switch op {
+					case token.LSS:
+						return triFalse
+					case token.GEQ:
+						return triTrue
+					}
+					return triUnknown
+				}, nil)
+				bounded = !reach[g.VertexOf(call)]
+			}
+			if !bounded {
+				bounded = c.entryRefusesModern(r)
+			}
+			c.Check(bounded, "event-store-only-below-2026-07-28:"+f.Name()+":"+sel.Sel.Name, f, call, "eventStore.%s is reached only for protocol versions below 2026-07-28 (guards: %s)", sel.Sel.Name, atomsString(guards))
+		}
+	}
+	c.Pin("writes to the event store by streamableServerConn", n, 2)
+
 }
